@@ -171,9 +171,11 @@ func (vm *VM) convertPanic(msg any) error {
 		if err, ok := msg.(string); ok && strings.HasPrefix(err, "reflect: cannot convert slice with length") {
 			return vm.newPanic(runtimeError("runtime error:" + err[len("reflect:"):]))
 		}
-	case OpDelete:
+	case OpDelete, OpMapIndex, -OpMapIndex:
 		if err, ok := msg.(runtime.Error); ok {
-			if s := err.Error(); strings.HasPrefix(s, "hash of unhashable type: ") {
+			s := err.Error()
+			if strings.HasPrefix(s, "hash of unhashable type: ") ||
+				strings.HasPrefix(s, "runtime error: hash of unhashable type ") {
 				return vm.newPanic(runtimeError(s))
 			}
 		}
@@ -229,6 +231,7 @@ func (vm *VM) convertPanic(msg any) error {
 		if err, ok := msg.(runtime.Error); ok {
 			s := err.Error()
 			if s == "assignment to entry in nil map" ||
+				strings.HasPrefix(s, "hash of unhashable type: ") ||
 				strings.HasPrefix(s, "runtime error: hash of unhashable type ") {
 				return vm.newPanic(runtimeError(s))
 			}
